@@ -29,6 +29,15 @@ Theorem C01_mirror_executable : forall cfg S D a ans bits ex ft,
   mirror now_far (excl_incl ex) normalize_unix (cf_diff cfg) Unix S D (d_fs (r_dest r)).
 Proof. exact run_top_mirror. Qed.
 
+(* ... and with the premise "nothing went through a link" discharged (Proofs/ConfinedMain.v): the
+   executable model mirrors in EVERY run that returns Ok without skips. *)
+Theorem C01_mirror_unconditional : forall cfg S D a ans bits ex ft,
+  unique_keys S -> wf_fs S -> unique_keys D -> wf_fs D -> src_times_set S -> links_utf8 S ->
+  let r := run_top cfg S D a ans bits ex ft in
+  r_ok r = true -> r_skipped r = [] -> r_root_skipped r = false -> cf_dry cfg = false -> cf_fl cfg = Unix ->
+  mirror now_far (excl_incl ex) normalize_unix (cf_diff cfg) Unix S D (d_fs (r_dest r)).
+Proof. exact run_top_mirror_unconditional. Qed.
+
 (* Link text: what is written on the destination has the same components as the source text for a
    relative target and is the text itself otherwise; and it normalises to the same target again. *)
 Theorem C01_link_text : forall t, lossy t = t -> same_path_text t (denormalize Unix (normalize_unix t)) = true.
@@ -60,5 +69,6 @@ Example C01_example :
 Proof. vm_compute. repeat split; reflexivity. Qed.
 
 Print Assumptions C01_mirror.
+Print Assumptions C01_mirror_unconditional.
 Print Assumptions C01_mirror_executable.
 Print Assumptions C01_table.
